@@ -189,7 +189,7 @@ def trace_task(task):
                     if set(files) != {"%s_results_table.tsv" % tid, "%s.nwk" % tid}:
                         part.violation("archive member is incomplete", dict(case, topology=tid, files=sorted(files)))
                         continue
-                    tab = pd.read_csv(io.StringIO(files["%s_results_table.tsv" % tid]), sep="\t")
+                    tab = pd.read_csv(io.StringIO(files["%s_results_table.tsv" % tid]), sep="\t", keep_default_na=False)
                     k = tracegen.table_key(tab, files["%s.nwk" % tid].strip(), data)
                     if tid in row_keys and k != row_keys[tid]:
                         part.violation("archive member does not describe the tree of its report row",
